@@ -8,18 +8,16 @@ import (
 	"github.com/zclconf/go-cty/cty"
 )
 
-
 // C15 (K): with the stock validators, the diagnostics of a file are exactly
 // the violations present. The schema's flags and limits are symbolic; the
 // configuration is generated from concrete counts. The specification counts
 // the expected diagnostics per kind.
 
-
 func verifB2I(b bool) int { return verifIteInt(b, 1, 0) }
 
-func VerifP_C15_Validate_Exact_N() int { return 2 }
+func VerifP_C15_Validate_Exact_N() int { return 3 }
 func VerifP_C15_Validate_Exact_Name(i int) string {
-	return []string{"top-level", "nested-and-unknown"}[i]
+	return []string{"top-level-blocks", "nested-and-unknown", "top-level-labels"}[i]
 }
 func VerifP_C15_Validate_Exact(mode int) {
 	minB := verifInt("min", 0, 3)
@@ -27,8 +25,14 @@ func VerifP_C15_Validate_Exact(mode int) {
 	req := verifBool("req")
 	depA := verifBool("depattr")
 	depB := verifBool("depblock")
+	// instances 0 and 2 are the top-level one with one of its two independent dimensions varied
+	// (number of blocks and dynamic blocks / number of declared and written labels)
+	varyLabels := mode == 2
+	if mode == 2 {
+		mode = 0
+	}
 	nLabels := 1
-	if mode == 0 {
+	if mode == 0 && varyLabels {
 		nLabels = verifChoice("schemalabels", 3)
 	}
 	var labels []*schema.LabelSchema
@@ -38,7 +42,7 @@ func VerifP_C15_Validate_Exact(mode int) {
 	inner := &schema.BodySchema{Attributes: map[string]*schema.AttributeSchema{
 		"a": {Constraint: schema.LiteralType{Type: cty.String}, IsRequired: req, IsOptional: !req, IsDeprecated: depA},
 	}}
-	hasDyn := mode == 0 && verifChoice("hasdynamic", 2) == 1
+	hasDyn := mode == 0 && !varyLabels && verifChoice("hasdynamic", 2) == 1
 	bs := &schema.BodySchema{
 		Extensions: &schema.BodyExtensions{DynamicBlocks: true},
 		Attributes: inner.Attributes,
@@ -49,8 +53,10 @@ func VerifP_C15_Validate_Exact(mode int) {
 	}
 	// configuration
 	nb, written, hasLbl := 1, 1, true
-	if mode == 0 {
+	if mode == 0 && !varyLabels {
 		nb = verifChoice("nblocks", 4)
+	}
+	if mode == 0 && varyLabels {
 		written = verifChoice("writtenlabels", 4)
 		hasLbl = verifChoice("haslbl", 2) == 1
 	}
